@@ -135,33 +135,65 @@ def check(script, timeout=60.0, solvers=None, need_all=False):
     return Result(ans[0], solver, secs, others=per)
 
 
+def _parse_values(out):
+    m = {}
+    for nm, val in re.findall(r'\(\s*([^\s()]+)\s+((?:#x[0-9a-fA-F]+)|(?:#b[01]+)|(?:\(_ bv\d+ \d+\))|(?:\(- \d+\))|(?:-?\d+)|true|false)\s*\)', out):
+        if val.startswith('#x'):
+            m[nm] = int(val[2:], 16)
+        elif val.startswith('#b'):
+            m[nm] = int(val[2:], 2)
+        elif val.startswith('(_ bv'):
+            m[nm] = int(val.split()[1][2:])
+        elif val.startswith('(-'):
+            m[nm] = -int(val[2:-1])
+        elif val in ('true', 'false'):
+            m[nm] = 1 if val == 'true' else 0
+        else:
+            m[nm] = int(val)
+    return m
+
+
 def get_model(script, names, timeout=60.0, solvers=None):
-    """script without check-sat; returns dict name -> int (bit-vectors/ints/bools) or None"""
+    """script without check-sat; all solvers are raced; returns (dict name -> int, solver) or (None, None)"""
     if '(set-logic' not in script:
         script = '(set-logic ALL)\n' + script
     q = script + '\n(check-sat)\n(get-value (' + ' '.join(names) + '))\n'
-    for s in (solvers or DEFAULT):
+    solvers = solvers or DEFAULT
+    procs = {}
+    for s in solvers:
         try:
-            p = subprocess.run(SOLVERS[s](timeout), input=q.replace('(set-option :produce-models false)', ''), capture_output=True, text=True, timeout=timeout + 5)
+            procs[s] = subprocess.Popen(SOLVERS[s](timeout), stdin=subprocess.PIPE, stdout=subprocess.PIPE, stderr=subprocess.STDOUT, text=True)
+        except FileNotFoundError:
+            continue
+    box = {}
+
+    def feed(s, p):
+        try:
+            out, _ = p.communicate(q, timeout=timeout + 5)
         except subprocess.TimeoutExpired:
-            continue
-        out = p.stdout
-        if not out.lstrip().startswith('sat'):
-            continue
-        m = {}
-        for nm, val in re.findall(r'\(\s*([^\s()]+)\s+((?:#x[0-9a-fA-F]+)|(?:#b[01]+)|(?:\(_ bv\d+ \d+\))|(?:\(- \d+\))|(?:-?\d+)|true|false)\s*\)', out):
-            if val.startswith('#x'):
-                m[nm] = int(val[2:], 16)
-            elif val.startswith('#b'):
-                m[nm] = int(val[2:], 2)
-            elif val.startswith('(_ bv'):
-                m[nm] = int(val.split()[1][2:])
-            elif val.startswith('(-'):
-                m[nm] = -int(val[2:-1])
-            elif val in ('true', 'false'):
-                m[nm] = 1 if val == 'true' else 0
-            else:
-                m[nm] = int(val)
-        if m:
-            return m, s
-    return None, None
+            p.kill()
+            out = ''
+        box[s] = out or ''
+    ths = [threading.Thread(target=feed, args=(s, p), daemon=True) for s, p in procs.items()]
+    for t in ths:
+        t.start()
+    t_end = time.time() + timeout + 6
+    res = (None, None)
+    while time.time() < t_end:
+        for s in list(box):
+            out = box[s]
+            if out.lstrip().startswith('sat'):
+                m = _parse_values(out)
+                if m:
+                    res = (m, s)
+                    break
+        if res[0] is not None or len(box) == len(procs):
+            break
+        time.sleep(0.02)
+    for p in procs.values():
+        if p.poll() is None:
+            try:
+                p.kill()
+            except Exception:
+                pass
+    return res
